@@ -161,6 +161,39 @@ def c03_entry(tier, replay):
         return 2
     return 1 if (rc1 or rc2 or rc3) else 0
 
+def wire_entry(pid):
+    def f(tier, replay):
+        from . import wirepart
+        if replay:
+            if replay.endswith(".wire.json"):
+                return wirepart.run(pid, tier, replay, merge=False)
+            return l1check.replay(pid, replay)
+        rc1 = l1check.run(pid, tier, L1[pid])
+        if rc1 == 2:
+            return 2
+        rc2 = wirepart.run(pid, tier, None, merge=True)
+        if rc2 == 2:
+            return 2
+        return 1 if (rc1 or rc2) else 0
+    return f
+
+def c06_entry(tier, replay):
+    from . import c06conc
+    if replay:
+        if replay.endswith(".json"):
+            return c06conc.run(tier, replay)
+        return l1check.replay("C06", replay)
+    rc1 = l1check.run("C06", tier, L1["C06"])
+    if rc1 == 2:
+        return 2
+    rc2 = c06conc.run(tier, None, merge=True)
+    if rc2 == 2:
+        return 2
+    return 1 if (rc1 or rc2) else 0
+
+CHECKS["C06"] = c06_entry
+CHECKS["C04"] = wire_entry("C04")
+CHECKS["C14"] = wire_entry("C14")
 CHECKS["C03"] = c03_entry
 CHECKS["C10"] = c10_entry
 CHECKS["C13"] = c13_entry
